@@ -266,20 +266,32 @@ class Repo:
         cands = set(self.expanded) | set(q for q in _inl.ALWAYS_EXPAND if q in self._funcs)
         if not cands:
             return
+        # what still refers to a candidate: a call that resolves to it, or any attribute / name / string of its name
+        # that does not resolve to some *other* function of the package (conservative for dynamic look-ups)
         mentioned = {}
+        resolved_elsewhere = set()
+        for fi in self._funcs.values():
+            for c, q in self.calls_in(fi):
+                if q in self._funcs:
+                    if q in cands:
+                        mentioned[q] = mentioned.get(q, 0) + 1
+                    resolved_elsewhere.add(id(c.func))
+        by_name = {}
         for m in self.modules.values():
             for n in ast.walk(m.tree):
+                if id(n) in resolved_elsewhere:
+                    continue
                 if isinstance(n, ast.Attribute):
-                    mentioned[n.attr] = mentioned.get(n.attr, 0) + 1
+                    by_name[n.attr] = by_name.get(n.attr, 0) + 1
                 elif isinstance(n, ast.Name):
-                    mentioned[n.id] = mentioned.get(n.id, 0) + 1
+                    by_name[n.id] = by_name.get(n.id, 0) + 1
                 elif isinstance(n, ast.alias):
-                    mentioned[n.name] = mentioned.get(n.name, 0) + 1
+                    by_name[n.name] = by_name.get(n.name, 0) + 1
                 elif isinstance(n, ast.Constant) and isinstance(n.value, str) and n.value.isidentifier():
-                    mentioned[n.value] = mentioned.get(n.value, 0) + 1      # getattr(self, "name")
+                    by_name[n.value] = by_name.get(n.value, 0) + 1      # getattr(self, "name")
         for q in cands:
             name = q.rsplit(".", 1)[-1]
-            if not mentioned.get(name) and q in self._funcs:
+            if not mentioned.get(q) and not by_name.get(name) and q in self._funcs:
                 self.absorbed.add(q)
         # an absorbed helper is analysed through its callers only: drop it from every index
         for q in self.absorbed:
@@ -611,12 +623,15 @@ class Repo:
         return out
 
     # ------------------------------------------------------- constant folding
-    def fold(self, module, e, _depth=0, symbolic=False):
+    def fold(self, module, e, _depth=0, symbolic=False, scope=None):
         """value of a constant expression.  symbolic=True: a constant of an imported non-repo module (`signal.SIGTERM`)
         folds to the symbol '@signal.SIGTERM' (the evaluator's representation of external constants)"""
         if _depth > 12:
             raise NotConst("too deep")
-        f = lambda x: self.fold(module, x, _depth + 1, symbolic)
+        f = lambda x: self.fold(module, x, _depth + 1, symbolic, scope)
+        if scope and isinstance(e, ast.Name) and e.id in scope and scope[e.id] is not e:
+            # a class-level constant referring to another constant of the same class body
+            return self.fold(module, scope[e.id], _depth + 1, symbolic, scope)
         if isinstance(e, ast.Constant):
             return e.value
         if isinstance(e, ast.Tuple):
